@@ -63,6 +63,8 @@ class Diff1d(Contract):
     def post(s, E, st, result):
         order, arr, dx = st.args
         m = st.m
+        if isinstance(result, Vec):
+            result = E.to_ndarr(result)          # replay: 1-d arrays of the real code are lifted as plain vectors
         if not isinstance(result, NDArr) or len(result.shape) != 1:
             return [('result is a 1-d array', False)]
         k = E.skolem([m], 'k')[0]
